@@ -607,6 +607,17 @@ func perturb(r *rand.Rand, c *credSet, req *base.Request, methods []auth.VerifyM
 	}
 
 	// ---- Digest only: the credentials are bound to realm, nonce, method, URL, algorithm
+	if sch == auth.VerifyMethodDigestMD5 {
+		// the same MD5 credentials without the algorithm parameter (RFC 2617: absent = MD5; this is
+		// what the library's Sender writes for a challenge that names no algorithm): still the
+		// Digest-MD5 scheme, so refused by every list that does not enable Digest-MD5
+		h := *hdr
+		h.Algorithm = nil
+		q := setHdr(h)
+		for _, l := range without {
+			c.mustReject("scheme-not-enabled-implicit-md5", scheme, q, c.user, c.pass, c.realm, c.nonce, l, "algorithm parameter absent; enabled methods: "+listName(l))
+		}
+	}
 	rl2 := mutateStr(r, c.realm, asciiQuote)
 	c.mustReject("expected-realm", scheme, req, c.user, c.pass, rl2, c.nonce, methods, fmt.Sprintf("verifier's realm %q, request made for %q", rl2, c.realm))
 	n2 := mutateStr(r, c.nonce, asciiQuote)
